@@ -546,6 +546,9 @@ def heldAct (holds : List String) (s : St) (a : Act) : Bool :=
   match a with
   | .wEnq | .wSkip => (match s.frames with | f :: _ => holds.contains (kindOf f) | [] => false)
   | .wClose => holds.contains "close"
+  -- "cresp": the client is stalled in the copy of the response message (the recording cloner of the harness holds it
+  -- there): nothing of the client moves from the moment the response has been taken until the hold is released
+  | .cTake | .cClosed | .cCtx | .cReturn => holds.contains "cresp" && s.respCopied.isSome
   | _ => false
 
 partial def closure (holds : List String) (started : Bool) (fuel : Nat) (frontier : List (St × List String)) (done : List (St × List String)) :
@@ -843,6 +846,7 @@ def parseOp (op : String) : Option HOp :=
   | ["sethdr", n] => n.toNat?.map .setHeader
   | ["sendhdr", n] => n.toNat?.map .sendHeader
   | ["settlr", n] => n.toNat?.map .setTrailer
+  | ["sethdrx", n] => n.toNat?.map .setStatusHeader
   | _ => none
 
 def parseRet (a : String) : Option Ret :=
